@@ -394,6 +394,29 @@ def E6(m, R):
     ins = [n for n in f.walk() if isinstance(n, ast.Call) and call_name(n) == 'insert_settings']
     ok = res is not None and sum(1 for c in ins if len(c.args) >= 2 and norm(c.args[1]) == res) >= 2
     R.check(ok, f, ins[0] if ins else f.node, 'the scrubbed list is what is inserted as start and as stop markers', construct='apply_formatting inserts scrub result')
+    # no function on the way from the caller's spelling to the inserted objects is memoised: a cache hands the same objects to every call
+    chain = [sc]
+    seen = {sc.qual}
+    frontier = [sc]
+    for _ in range(4):
+        nxt = []
+        for g in frontier:
+            for n in g.walk():
+                if isinstance(n, ast.Call):
+                    nm = call_name(n)
+                    for q in ('%s.%s' % (ro.POINT, nm), nm, 'AnsiSetting.%s' % nm, '_AnsiControlFn.%s' % nm):
+                        h = m.funcs.get(q)
+                        if h is not None and h.qual not in seen:
+                            seen.add(h.qual)
+                            nxt.append(h)
+                            chain.append(h)
+        frontier = nxt
+    memo = [(g, d) for g in chain for d in g.decorators if re.search(r'(^|\.)(lru_cache|cache|cached_property|memoize|memoise)\b', d)]
+    R.check(not memo, memo[0][0] if memo else sc, (memo[0][0] if memo else sc).node,
+            'none of the %d functions that turn the caller\'s spelling into settings is memoised' % len(chain),
+            '%s is decorated with %s: for equal arguments it returns the very objects it returned before, so two ranges formatted with the same spelling share their '
+            'markers (make_unique is defeated) and the end of one range ends the other' % (memo[0][0].qual if memo else '', memo[0][1] if memo else ''),
+            construct='scrub chain not memoised')
 
 
 @rule('E7', 'text-untouched: apply / remove / *_matching / clear_formatting never write the text; clear_formatting empties the table', floor=6)
